@@ -473,7 +473,24 @@ def run_C17(ctx):
         rule="hardened builds (MI_SECURE=4 decides 'stays usable'; MI_DEBUG=3 the reports only), error callback registered: all sequences over {malloc(8000), malloc(100), fill(8 x 8000 = one page), free(i)} plus the three faults at every position the history allows: double_free(j) = second free of any of the six most recently released blocks that is still free while its page holds another live block (expected: exactly one EAGAIN and an unchanged allocator fingerprint); overflow_then_free(i) = one foreign byte at p[requested] of a block with slack, then free (expected: EFAULT); forge_link(j, target) = the free-list link of a released block overwritten with the encoding of an address outside its page (another segment, or a live block of another page) (expected: EFAULT when the allocator reaches it instead of following it). In the secure build exploration continues afterwards under the C01 oracle (no overlap, contents, accessibility) and every live block must lie in a heap region; in the debug build the branch ends after the first report.",
         assumptions=COMMON_ASSUME + ["forged values that decode into the same page, and a second free after the whole page was released, are outside the claim and not generated"])
 
+def run_C15(ctx):
+    q = ctx.quick
+    pr = [] if q else ["--prune"]
+    # shape = delta index (0, 4 KiB, 1 MiB, 32 MiB - 4 KiB) * 16 + size index (64, 95, 96, 100 MiB) * 4 + exclusive * 2 + committed
+    shapes_q = [2, 3, 0, 22, 59, 14, 47, 41]
+    shapes = shapes_q if q else list(range(64))
+    plan = [("rel", "P6a", f"Sa{k}", 5 if (q and k in (2, 3)) else (4 if q else 5), pr, {}) for k in shapes]
+    plan += [("dbg", "P6a", "Sa2", 4 if q else 5, pr, {}), ("sec", "P6a", "Sa23", 4 if q else 5, pr, {}), ("rel", "P6a", "Sa3", 4, [], {"MIMALLOC_ABANDONED_RECLAIM_ON_FREE": "1"}),
+             ("rel", "P6a", "Sa18", 4, [], {"MIMALLOC_PURGE_DELAY": "0"})]
+    return seq_property(ctx, plan,
+        rule="the harness maps guard | canary | region | canary | guard, hands [start+delta, +size) to mi_manage_os_memory_ex for delta in {0, 4 KiB, 1 MiB, 32 MiB - 4 KiB} x size in {64, 95, 96, 100 MiB} x exclusive {0,1} x committed {0,1} (quick: 8 shapes; thorough: all 64) and explores all sequences over {heap_new_in_arena, heap_malloc(arena heap, 8K/1M/17M), malloc (default heap, same sizes), free(i), collect(1), thread_arena_alloc (a helper thread creates an arena-bound heap, allocates two blocks and exits with them live), thread_alloc (a helper thread allocates 12 blocks from its default heap, keeps the first and last, exits)} up to depth D. Node oracle: blocks of arena-bound heaps lie inside the arena; for an exclusive arena no block of any other heap intersects it (also after the same thread freed an arena page, and after adoption of abandoned segments through allocation or forced collect); an arena-bound heap returns NULL only when the arena cannot serve the request; canary pages around the given range intact and no OS call (mprotect/madvise/munmap) on memory outside the given range.",
+        assumptions=COMMON_ASSUME + ["helper threads run to completion inside one operation (sequential thread exit / adoption)"])
+
 PROPS = {
+    "C15": dict(level="model_checking", run=run_C15, replay=replay_file, engine="seq-explorer",
+        technique="bounded exhaustive exploration of operation sequences over a managed (exclusive or shared) arena with arena-bound and default heaps, including thread exit and adoption, on the real allocator with address-range oracles",
+        text="For each region shape every sequence of the alphabet up to depth D is executed; every live block's address is compared against the arena range according to the heap it came from, and the surroundings of the managed region are monitored.",
+        note="trusted: harness model; region shapes are a finite set"),
     "C17": dict(level="model_checking", run=run_C17, replay=replay_file, engine="seq-explorer",
         technique="bounded exhaustive exploration of operation sequences with injected program faults (double free, one-byte overflow, forged free-list link) at every position, on the hardened builds of the real allocator",
         text="Every sequence of the alphabet including the fault operations up to depth D runs on the MI_SECURE=4 and MI_DEBUG=3 builds; the expected error code must be reported at the expected call and the secure build must remain consistent afterwards.",
